@@ -885,6 +885,26 @@ class KeywordSearches:
 
     @staticmethod
     # pylint: disable=locally-disabled,too-many-locals,too-many-branches,too-many-statements
+    @staticmethod
+    def _group_key(value: Any) -> Any:
+        """
+        Get a dictionary key by which to group equal values.
+
+        Complex values (Hashes, Arrays, Sets) are not hashable, so they are
+        grouped by their printable representation.
+
+        Parameters:
+        1. value (Any) The value to group by
+
+        Returns:  (Any) `value` when it is hashable; its representation,
+            otherwise
+        """
+        try:
+            hash(value)
+        except TypeError:
+            return repr(value)
+        return value
+
     def distinct(
         data: Any, invert: bool, parameters: List[str], yaml_path: YAMLPath,
         **kwargs: Any
@@ -956,7 +976,8 @@ class KeywordSearches:
                 eval_ele = (NodeCoords.unwrap_node_coords(raw_ele)
                     if isinstance(raw_ele, NodeCoords) else raw_ele)
                 if eval_ele is not None and scan_node in eval_ele:
-                    eval_val = eval_ele[scan_node]
+                    eval_val = KeywordSearches._group_key(
+                        eval_ele[scan_node])
                     if eval_val in seen_values:
                         seen_values[eval_val].append(wrapped_ele)
                     else:
@@ -980,7 +1001,8 @@ class KeywordSearches:
                         wrapped_ele = NodeCoords(
                             val, data, key, next_path, next_ancestry,
                             relay_segment)
-                        eval_val = val[scan_node]
+                        eval_val = KeywordSearches._group_key(
+                            val[scan_node])
                         if eval_val in seen_values:
                             seen_values[eval_val].append(wrapped_ele)
                         else:
@@ -1008,7 +1030,8 @@ class KeywordSearches:
             for idx, ele in enumerate(data):
                 next_path = translated_path + f"[{idx}]"
                 next_ancestry = ancestry + [(data, idx)]
-                eval_val = (NodeCoords.unwrap_node_coords(ele)
+                eval_val = KeywordSearches._group_key(
+                    NodeCoords.unwrap_node_coords(ele)
                     if isinstance(ele, NodeCoords) else ele)
                 wrapped_ele = (ele
                     if isinstance(ele, NodeCoords) else NodeCoords(
@@ -1021,7 +1044,7 @@ class KeywordSearches:
 
         else:
             # Non-complex data is always unique
-            seen_values[data] = [NodeCoords(
+            seen_values[KeywordSearches._group_key(data)] = [NodeCoords(
                 data, parent, parentref, translated_path, ancestry,
                 relay_segment)]
 
@@ -1098,7 +1121,8 @@ class KeywordSearches:
                 eval_ele = (NodeCoords.unwrap_node_coords(raw_ele)
                     if isinstance(raw_ele, NodeCoords) else raw_ele)
                 if eval_ele is not None and scan_node in eval_ele:
-                    eval_val = eval_ele[scan_node]
+                    eval_val = KeywordSearches._group_key(
+                        eval_ele[scan_node])
                     if eval_val in seen_values:
                         seen_values[eval_val].append(wrapped_ele)
                     else:
@@ -1122,7 +1146,8 @@ class KeywordSearches:
                         wrapped_ele = NodeCoords(
                             val, data, key, next_path, next_ancestry,
                             relay_segment)
-                        eval_val = val[scan_node]
+                        eval_val = KeywordSearches._group_key(
+                            val[scan_node])
                         if eval_val in seen_values:
                             seen_values[eval_val].append(wrapped_ele)
                         else:
@@ -1150,7 +1175,8 @@ class KeywordSearches:
             for idx, ele in enumerate(data):
                 next_path = translated_path + f"[{idx}]"
                 next_ancestry = ancestry + [(data, idx)]
-                eval_val = (NodeCoords.unwrap_node_coords(ele)
+                eval_val = KeywordSearches._group_key(
+                    NodeCoords.unwrap_node_coords(ele)
                     if isinstance(ele, NodeCoords) else ele)
                 wrapped_ele = (ele
                     if isinstance(ele, NodeCoords) else NodeCoords(
@@ -1163,7 +1189,7 @@ class KeywordSearches:
 
         else:
             # Non-complex data is always unique
-            seen_values[data] = [NodeCoords(
+            seen_values[KeywordSearches._group_key(data)] = [NodeCoords(
                 data, parent, parentref, translated_path, ancestry,
                 relay_segment)]
 
